@@ -20,15 +20,15 @@ RULE = ("documents of definitions and nested scopes (depth <= 3) whose words mix
         "quote styles, references to scopes, later definitions, themselves and undefined names x environments that do or do not "
         "define the names; non-trivial = the definition contains a '$'; distinct = (document, env)")
 ASSUMPTIONS = ["documents are variable-substituted through definition.resolve_variables (what fetch calls)"]
-NAMES = ["a", "b", "c", "s", "t", "x1"]
-ENVN = ["a", "b", "c", "HOME_X", "zz", "x1", "s", "a.b"]
+NAMES = ["a", "b", "c", "s", "t", "x1", "s_b", "t_b", "ab", "sa", "st"]   # incl. names that extend scope names
+ENVN = ["a", "b", "c", "HOME_X", "zz", "x1", "s", "a.b", "s_b", "t_b", "ab", "st"]
 
 
 def gen_word(rng):
     k = rng.random()
     refs = NAMES + ["zz", "HOME_X"]
     r = rng.choice(refs)
-    dotted = rng.choice(["s.a", "s.t.b", ".a", ".s.a", "t.c", ".zz", "s", "a.b"])
+    dotted = rng.choice(["s.a", "s.t.b", ".a", ".s.a", "t.c", ".zz", "s", "a.b", "st.a", "st.x1", "ss.b", ".st.a", "s.s_b"])
     if k < 0.25:
         return rng.choice(["lit", "1", "x-y", "p/q", "None"])
     if k < 0.4:
@@ -53,7 +53,7 @@ def gen_nodes(rng, depth):
     out = []
     for _ in range(rng.choice([1, 2, 2, 3, 4])):
         if depth > 0 and rng.random() < 0.3:
-            name = rng.choice(["s", "t", "s.t"])
+            name = rng.choice(["s", "t", "s.t", "st", "ss", "a"])
             out.append({"k": "s", "name": name, "dis": rng.random() < 0.05, "kids": gen_nodes(rng, depth - 1)})
         else:
             name = rng.choice(NAMES + ["a.b", "s.a", "t.c"])
@@ -167,7 +167,7 @@ def run(ctx):
             ctx.count("outcome_" + (out[0] if out[0] == "ok" else out[2]))
         # ---- oracle
         for d, out in zip(defs, impl):
-            f = clauses(d, out, diff)
+            f = clauses(d, out, diff) or lookup_clause(root, d, out, env, diff)
             if f:
                 ctx.fail({"text": text, "env": env, "diff": diff, "definition": d.full_path()}, f)
         if not diff:
@@ -176,6 +176,85 @@ def run(ctx):
                 ctx.fail({"text": text, "env": env}, f)
         if i % 200 == 0:
             ctx.sample({"text": text, "env": env, "resolved": [o if o[0] != "ok" else [dec(w[0]) for w in o[1]] for o in impl][:6]})
+
+
+def enclosing_scopes(root, d):
+    """the scope objects that enclose d, innermost first, root last"""
+    chain = []
+
+    def walk(o, anc):
+        for c in o.objects:
+            if c is d:
+                chain.extend(anc)
+                return True
+            if c.is_scope and walk(c, [c] + anc):
+                return True
+        return False
+    walk(root, [root])
+    return chain
+
+
+def relative_matches(scope, name):
+    """objects below `scope` whose dotted path relative to it is `name`, in document order"""
+    out = []
+
+    def walk(o, prefix):
+        for c in o.objects:
+            p = prefix + c.name
+            if p == name:
+                out.append(c)
+            elif c.is_scope and name.startswith(p + "."):
+                walk(c, p + ".")
+    walk(scope, "")
+    return out
+
+
+def ref_lookup(root, d, name):
+    """independent reading of the statement: the nearest object named `name` relative to an enclosing scope of d
+    (searched outward; root-anchored with a leading '.') that appears earlier in the document; None if there is none"""
+    chain = enclosing_scopes(root, d)
+    if name.startswith("."):
+        chain, name = [root], name[1:]
+    for scope in chain:
+        # "appears earlier": document-order position (the scopes a dotted name creates share their definition's position)
+        hits = [o for o in relative_matches(scope, name)
+                if o is not d and o.primary_id is not None and o.primary_id < d.primary_id]
+        if hits:
+            return hits[-1]
+    return None
+
+
+def lookup_clause(root, d, out, env, diff):
+    """a word that is exactly one unquoted variable takes over the words of the nearest earlier definition"""
+    if len(d.words) != 1 or d.words[0].quote_token is not None or diff:
+        return None
+    v = d.words[0].value
+    if v.startswith("$(") and v.endswith(")") and v.count("$") == 1 and ")" not in v[2:-1]:
+        name = v[2:-1]
+    elif v.startswith("$") and v.count("$") == 1 and v[1:].replace("_", "a").isalnum() and v[1:2].isalpha() | (v[1:2] == "_"):
+        name = v[1:]
+    else:
+        return None
+    if not freephil.is_standard_identifier(name[1:] if name.startswith(".") else name):
+        return None
+    target = ref_lookup(root, d, name)
+    if target is None:
+        if name in env:
+            want = ["ok", [[enc(env[name]), "d1", None]]]
+        else:
+            return None if out[0] == "err" and out[2] == "undefined_variable" else (
+                "no earlier definition of %s and no environment value, yet the result is %r" % (name, out))
+        return None if out == want else "environment fallback for %s gave %r" % (name, out)
+    if target.is_scope:
+        return None if out[0] == "err" and out[2] == "not_a_definition" else (
+            "nearest earlier object named %s is a scope, yet the result is %r" % (name, out))
+    if any("$" in w.value and w.quote_token != "'" for w in target.words):
+        return None
+    want = ["ok", [word_j(w)[:2] + [None] for w in target.words]]
+    if out != want:
+        return "%s should take the words of the nearest earlier definition %s (%r) but resolves to %r" % (
+            d.full_path(), target.full_path(), [w.value for w in target.words], out)
+    return None
 
 
 def clauses(d, out, diff):
